@@ -98,8 +98,15 @@ fn judge_with(ctx: &mut Ctx, a: &MV, b: &MV, ca: Version, cb: Version) {
             return;
         }
     };
-    ctx.sample(|| json!({"a": a.text(), "b": b.text(), "crate": got.0.map(|d| d.to_string()), "model": want}));
-    let gs = got.0.map(|d| d.to_string());
+    // the printed name of the result is part of the statement: printing it must not fail either
+    let gs = match guarded(|| got.0.map(|d| d.to_string())) {
+        Ok(g) => g,
+        Err(p) => {
+            ctx.violation(&format!("panic/display/{}", p.site), json!({"a": a.text(), "b": b.text(), "diff": format!("{:?}", got.0)}), p.message);
+            return;
+        }
+    };
+    ctx.sample(|| json!({"a": a.text(), "b": b.text(), "crate": gs, "model": want}));
     if let Some(d) = got.0 {
         if let Ok(Some(m)) = guarded(|| crate::observe::fmt_spec_mismatch(&d)) {
             ctx.violation(&format!("display-under-format-spec/{}", cls), json!({"a": a.text(), "b": b.text()}), m);
@@ -266,7 +273,13 @@ pub fn run(ctx: &mut Ctx) {
         match guarded(|| (pa.diff(&pb), pb.diff(&pa))) {
             Err(p) => ctx.violation(&format!("panic/{}", p.site), json!({"a": ta, "b": tb}), p.message),
             Ok((g1, g2)) => {
-                let gs = g1.map(|d| d.to_string());
+                let gs = match guarded(|| g1.map(|d| d.to_string())) {
+                    Ok(g) => g,
+                    Err(p) => {
+                        ctx.violation(&format!("panic/display/{}", p.site), json!({"a": ta, "b": tb}), p.message);
+                        continue;
+                    }
+                };
                 if g1 != g2 {
                     ctx.violation(&format!("asymmetric/parsed/{}", class_of(&a, &b)), json!({"a": ta, "b": tb}), format!("a.diff(b)={:?} but b.diff(a)={:?}", g1, g2));
                 } else if gs.as_deref() != want {
